@@ -61,12 +61,15 @@ def run(cmd, cwd=None, timeout=3600, env=None):
 def regenerate_tables() -> dict:
     """Runs the translator (code → Lean tables). Returns its report."""
     rc, out = run(['/venv/bin/python', str(VERIF / 'tools' / 'extract_tables.py')], cwd=str(VERIF), timeout=600)
-    if rc != 0:
-        raise LeanFailure('translator failed', out)
     try:
-        return json.loads(out.strip().splitlines()[-1])
+        rep = json.loads(out.strip().splitlines()[-1])
     except Exception:
+        if rc != 0:
+            raise LeanFailure('translator failed', out)
         return {'raw': out[-2000:]}
+    if rc != 0 and not rep.get('errors'):
+        raise LeanFailure('translator failed', out)
+    return rep
 
 
 def lake_build(targets: list[str]) -> tuple[bool, str, float]:
@@ -174,7 +177,7 @@ def proof_obligations(prop: str, extra_targets: list[str] | None = None) -> dict
     if not ok:
         info['build_output'] = out[-6000:]
         info['discharged'] = 0
-        info['failed'] = ['<build>']
+        info['failed'] = ['<build>'] + _failed_theorems(out)
         return info
     forb = grep_forbidden()
     info['forbidden_hits'] = forb
@@ -185,10 +188,50 @@ def proof_obligations(prop: str, extra_targets: list[str] | None = None) -> dict
         bad.append('<audit>')
     if forb:
         bad.append('<forbidden constructs>')
+    # a translator section that could not read the code leaves a STALE generated file behind: the theorems that compiled are
+    # then about the old code — that is a broken obligation, not a pass
+    if info.get('translator_error') or (isinstance(info.get('translator'), dict) and info['translator'].get('errors')):
+        bad.append('<translator>')
     info['failed'] = bad
     info['discharged'] = len(names) - len([b for b in bad if not b.startswith('<')])
     info['lean_s'] = round(time.time() - t0, 1)
     return info
+
+
+def _failed_theorems(build_output: str) -> list[str]:
+    """names of the declarations lake reports an error in (best effort: `error: File.lean:LINE:COL` → enclosing theorem)."""
+    names = []
+    for m in re.finditer(r'error: (QcoVerif/[\w/]+\.lean):(\d+):', build_output):
+        f, line = LEAN / m.group(1), int(m.group(2))
+        try:
+            src = f.read_text().splitlines()
+        except OSError:
+            continue
+        for i in range(min(line, len(src)) - 1, -1, -1):
+            mm = re.match(r'\s*(?:@\[[^\]]*\]\s*)?(?:private\s+|protected\s+)?(?:theorem|def|example)\s+([^\s:({\[]+)?', src[i])
+            if mm:
+                nm = f'{f.stem}:{mm.group(1) or "example"}'
+                if nm not in names:
+                    names.append(nm)
+                break
+    return names[:12]
+
+
+def pysem_stage(oc, prop: str, groups: list, seed: int, tier: str) -> dict:
+    """semantics check of the mini-Python interpreter against CPython on the translated functions of `groups`
+    (harness/pysem.py).  A disagreement means the meaning Model/PyLang.lean gives to the translated source is not CPython's:
+    the `…_matches_source` theorems then say nothing about the code — reported as a broken correspondence."""
+    from . import pysem
+    try:
+        rep = pysem.check(groups, seed, 25 if tier == 'quick' else 400)
+    except LeanFailure as e:
+        rep = {'cases': 0, 'mismatch_count': 1, 'mismatches': [{'driver': e.output[-600:]}]}
+    if rep['mismatch_count']:
+        oc.violation({'property': prop, 'kind': 'correspondence-broken',
+                      'unchecked': 'mini-Python interpreter (Model/PyLang.lean) vs CPython on the translated source functions',
+                      'first_differences': rep['mismatches'][:5], 'count': rep['mismatch_count']}, found_input=False)
+    return {'source_semantics_check': {k: rep[k] for k in ('cases', 'skipped_not_encodable', 'per_function', 'raising_cases',
+                                                             'mismatch_count') if k in rep}}
 
 
 def driver_available() -> bool:
